@@ -42,6 +42,8 @@ func runC11(c *core.Ctx) {
 	}
 	c11Confinement(c)
 	challengeSchemesFiltered(c, "C11.R4")
+	challengeStateIsAParsedChallenge(c, "C11.R4")
+	returnedResponseBodyOpen(c, "C11.R11")
 	hostKeying(c, "C11.R6")
 	c11RequestUnmodified(c, rt)
 	c11BodyClosed(c, rt)
